@@ -930,6 +930,35 @@ def run(tier, seed, build):
                 reqs.append(("structure", {"kind": kind, "doc": doc}))
                 meta.append(("structure", case, doc, doc_s, canon_obj(kind, ENC[kind](back))))
 
+        # ---- (c) crafted documents (Tie B for the model's `==` on symbols, `Symbol.pyEq`): one Call listed
+        # twice in a `calls` array, keyword arguments in two orders. `kwargs` is a frozendict, so the two are
+        # == in Python and the structured set has ONE member (the first); the model must agree.
+        impl.reset_config()
+        for lineno, kw in ((3, {"k": "a", "j": "b"}), (9, {"é": "x.y", "z": "w", "k": "v"})):
+            res.evaluations += 1
+            file = Path("synth.py")
+            caller = Func(name="caller", interface=CallInterface(args=["a"]),
+                          location=Location(lineno=lineno, col_offset=0, end_lineno=lineno + 1, end_col_offset=9, file=file))
+            call = Call(name="g", args=CallArguments(args=["a"], kwargs=kw), target=None,
+                        location=Location(lineno=lineno + 1, col_offset=4, end_lineno=lineno + 1, end_col_offset=9, file=file))
+            base = FileIr(context=Context(parent=None, file=file), file_ir={caller: FunctionIr.new(calls=[call])})
+            plain = json.loads(ser("fileir", base))
+            (fn_doc,) = plain["function_irs"].values()
+            (c1,) = fn_doc["calls"]
+            c2 = json.loads(json.dumps(c1))
+            c2["args"]["kwargs"] = dict(reversed(list(c1["args"]["kwargs"].items())))
+            fn_doc["calls"] = [c1, c2]
+            crafted_s = json.dumps(plain, indent=4)
+            case = {"kind": "fileir", "label": "crafted:kwargs-order", "document": crafted_s}
+            ro = impl.outcome_of(lambda: deserialise(crafted_s, type=FileIr))
+            if ro[0] != "ok":
+                res.internal_errors.append({"what": "crafted kwargs-order document does not deserialise", "case": case,
+                                            "detail": list(ro[1:])})
+                continue
+            res.count(f"crafted:kwargs-order:members={sum(len(ir['calls']) for ir in ro[1]._file_ir.values())}")
+            reqs.append(("structure", {"kind": "fileir", "doc": pairs_loads(crafted_s)}))
+            meta.append(("structure", case, pairs_loads(crafted_s), crafted_s, canon_obj("fileir", enc_fileir(ro[1]))))
+
         # ---- correspondence with the Lean model
         outs = model.batch(reqs)
         for (op, case, doc, doc_s, back_enc), (_, payload), mo in zip(meta, reqs, outs):
@@ -950,6 +979,14 @@ def run(tier, seed, build):
                                                     "case": case})
                     else:
                         res.count("hyp:SortKeyInj:holds")
+                    # the hypothesis that replaced it (FileIrSets / FnIrIsSet: no two members of a set are ==
+                    # under the model's Symbol.pyEq) — a real set always satisfies it, so a failure means the
+                    # model's == is coarser than Python's
+                    if not mo.get("members_are_sets", True):
+                        res.internal_errors.append({"what": "the model's == identifies two members of a real set: "
+                                                    "hypothesis IsSet fails", "case": case})
+                    else:
+                        res.count("hyp:IsSet:holds")
                     # the model's json.dumps(sort_keys=True) against the real one (the IR sort key)
                     if mo["sorted_dump"] != json.dumps(json.loads(doc_s), sort_keys=True):
                         res.internal_errors.append({"what": "dumpSorted differs from json.dumps(sort_keys=True)",
@@ -1039,7 +1076,8 @@ def run(tier, seed, build):
         "[interp] 'compare equal' is Python == on the rattr objects (attrs eq: token and location excluded; sets and dicts order-insensitive)",
         "[interp] the order of the import_irs dict (filled by the import BFS) and of the context symbol table (insertion order) is part of the analysis; their hash-seed independence is covered end-to-end by the CLI runs only",
         "model `structure` is claimed only for documents the serialiser emits (every key present, declared scalar types)",
-        "json.dumps(·, sort_keys=True) is injective on the unstructured members of a set (hypothesis SortKeyInj of C18_ir_canonical): evaluated by the model on every object (distribution key hyp:SortKeyInj:holds), a failure is an internal error",
+        "json.dumps is PROVED injective on the model's JSON values (C18_json_printer_injective) and the sort key (name, json.dumps(member, sort_keys=True)) is proved to separate the members of every set (sortKeyInj_of_isSet); the remaining hypothesis of C18_ir_canonical is the data-type invariant that a member list stands for a Python set (no two members ==, kwargs compared as a frozendict), evaluated by the model on every object (distribution keys hyp:IsSet:holds, hyp:SortKeyInj:holds), a failure is an internal error",
+        "model strings are lists of Unicode scalar values: a Python str holding lone surrogates is outside the printer theorem (json.dumps prints chr(0xd83d)+chr(0xde00) and chr(0x1f600) alike)",
         "Python set iteration order is an arbitrary permutation (modelled by list order); permuted-order checks feed lists in place of sets",
     ]
     return res
